@@ -34,6 +34,8 @@ CONSTANTS Keys,            \* contents
           ReaderWants,     \* set of contents the reader asks for
           ReaderPinned,    \* the reader's session already holds a snapshot (taken before everything)
           PerPack,         \* pack_all_loose(clean_loose_per_pack=...)
+          MaxRetries,      \* MAX_RETRIES of LazyLooseStream.open_stream (3 in the code)
+          SeekKey,         \* a packed content a second reader reads with a backward seek (re-loosen path); "none" = no such reader
           AllowCrash, AllowPower, AllowFault,
           UnlinkBeforeCommit, CommitBeforeFlush, NoFallback, SkipPackFsync, RenameBeforeFsync
 
@@ -50,6 +52,7 @@ VARIABLES loose,        \* [Keys -> {"absent", "good"}]
           lockf,        \* packs/0.lock exists
           wpc, wi, wexists,              \* writer: pc, index into WriterAdds, result of the exists() check
           rpc, rhits, rmiss, rres,       \* reader
+          spc, stries, sres,             \* seeking reader (LazyLooseStream.open_stream, utils.py:226-256)
           ppc, plist, ptodo, pdone, pclean,   \* packer
           acked, rstarted,               \* ghosts: acknowledged contents; those acknowledged when the read started
           dead,                          \* set of actors that were killed / stopped by a fault
@@ -58,7 +61,8 @@ VARIABLES loose,        \* [Keys -> {"absent", "good"}]
           lastActor
 
 vars == <<loose, looseSynced, sbx, pk, pkSynced, pbuf, idx, pend, snapP, pinP, snapR, pinR, lockf, wpc, wi, wexists,
-          rpc, rhits, rmiss, rres, ppc, plist, ptodo, pdone, pclean, acked, rstarted, dead, faults, power, lastActor>>
+          rpc, rhits, rmiss, rres, spc, stries, sres, ppc, plist, ptodo, pdone, pclean, acked, rstarted, dead, faults, power,
+          lastActor>>
 
 Nil == [k |-> "none", inkernel |-> FALSE, synced |-> FALSE]
 KeysOf(R) == {r.k : r \in R}
@@ -76,13 +80,14 @@ Init ==
     /\ snapR = IF ReaderPinned THEN {[k |-> InitialPacked[i], pos |-> i] : i \in DOMAIN InitialPacked} ELSE {}
     /\ wpc = "w_start" /\ wi = 1 /\ wexists = FALSE
     /\ rpc = "r_start" /\ rhits = {} /\ rmiss = {} /\ rres = [k \in Keys |-> "none"]
+    /\ spc = (IF SeekKey = "none" THEN "s_done" ELSE "s_start") /\ stries = 0 /\ sres = "none"
     /\ ppc = "p_list" /\ plist = {} /\ ptodo = <<>> /\ pdone = {} /\ pclean = {}
     /\ acked = Initial \cup {InitialPacked[i] : i \in DOMAIN InitialPacked} /\ rstarted = {} /\ dead = {} /\ faults = 0 /\ power = FALSE /\ lastActor = "-"
 
 -----------------------------------------------------------------------------
 (* Writer: ObjectWriter (utils.py:326-495)                                  *)
 WK == WriterAdds[wi]
-WUnch == UNCHANGED <<pk, pkSynced, pbuf, idx, pend, snapP, pinP, snapR, pinR, lockf, rpc, rhits, rmiss, rres,
+WUnch == UNCHANGED <<pk, pkSynced, pbuf, idx, pend, snapP, pinP, snapR, pinR, lockf, rpc, rhits, rmiss, rres, spc, stries, sres,
                      ppc, plist, ptodo, pdone, pclean, rstarted, dead, faults, power>>
 
 W_Write ==      \* open sandbox file, write, flush (utils.py:340, 358)
@@ -125,7 +130,7 @@ Writer == /\ "W" \notin dead /\ ~power
 
 -----------------------------------------------------------------------------
 (* Reader: _get_objects_stream_meta_generator (container.py:535-813)        *)
-RUnch == UNCHANGED <<loose, looseSynced, sbx, pk, pkSynced, pbuf, idx, pend, snapP, pinP, lockf, wpc, wi, wexists,
+RUnch == UNCHANGED <<loose, looseSynced, sbx, pk, pkSynced, pbuf, idx, pend, snapP, pinP, lockf, wpc, wi, wexists, spc, stries, sres,
                      ppc, plist, ptodo, pdone, pclean, acked, dead, faults, power>>
 
 RowVisible(r) == r.pos <= Len(pk)        \* the bytes the row designates are in the kernel-visible pack
@@ -173,8 +178,41 @@ Reader == /\ "R" \notin dead /\ ~power
           /\ lastActor' = "R"
 
 -----------------------------------------------------------------------------
+(* Seeking reader: a backward seek on a packed, compressed object makes the stream re-loosen it (loosen_object,      *)
+(* container.py:1887-1925) and open the loose copy, retrying when a concurrent clean removed it (utils.py:226-256).  *)
+SUnch == UNCHANGED <<sbx, pk, pkSynced, pbuf, idx, pend, snapP, pinP, snapR, pinR, lockf, wpc, wi, wexists, rpc, rhits, rmiss, rres,
+                     ppc, plist, ptodo, pdone, pclean, acked, rstarted, dead, faults, power>>
+S_Exists ==     \* loosen_object: loose_path.exists()
+    /\ spc = "s_start"
+    /\ spc' = IF loose[SeekKey] = "good" THEN "s_open" ELSE "s_write"
+    /\ UNCHANGED <<loose, looseSynced, stries, sres>> /\ SUnch
+S_Write ==      \* read the packed object, write and fsync it in the sandbox
+    /\ spc = "s_write" /\ spc' = "s_dest"
+    /\ UNCHANGED <<loose, looseSynced, stries, sres>> /\ SUnch
+S_DestExists == \* ObjectWriter: somebody (another loosening reader) may have put it there meanwhile
+    /\ spc = "s_dest"
+    /\ spc' = IF loose[SeekKey] = "good" THEN "s_open" ELSE "s_rename"
+    /\ UNCHANGED <<loose, looseSynced, stries, sres>> /\ SUnch
+S_Rename ==
+    /\ spc = "s_rename"
+    /\ loose' = [loose EXCEPT ![SeekKey] = "good"] /\ looseSynced' = [looseSynced EXCEPT ![SeekKey] = TRUE]
+    /\ spc' = "s_open"
+    /\ UNCHANGED <<stries, sres>> /\ SUnch
+S_Open ==       \* open(loose_path): FileNotFoundError -> retry, more than MAX_RETRIES = 3 -> RuntimeError
+    /\ spc = "s_open"
+    /\ IF loose[SeekKey] = "good"
+          THEN sres' = "OK" /\ spc' = "s_done" /\ UNCHANGED stries
+          ELSE /\ stries' = stries + 1
+               /\ IF stries + 1 > MaxRetries THEN sres' = "RuntimeError" /\ spc' = "s_done" ELSE sres' = sres /\ spc' = "s_start"
+    /\ UNCHANGED <<loose, looseSynced>> /\ SUnch
+
+Seeker == /\ "S" \notin dead /\ ~power
+          /\ (S_Exists \/ S_Write \/ S_DestExists \/ S_Rename \/ S_Open)
+          /\ lastActor' = "S"
+
+-----------------------------------------------------------------------------
 (* Packer: pack_all_loose (container.py:1258-1486) then clean_storage (1945-2055) *)
-PUnch == UNCHANGED <<sbx, snapR, pinR, wpc, wi, wexists, rpc, rhits, rmiss, rres, acked, rstarted, dead, faults, power>>
+PUnch == UNCHANGED <<sbx, snapR, pinR, wpc, wi, wexists, rpc, rhits, rmiss, rres, spc, stries, sres, acked, rstarted, dead, faults, power>>
 
 P_List ==       \* set(self._list_loose())
     /\ ppc = "p_list"
@@ -274,7 +312,7 @@ Stop(a, isFault) ==
     /\ faults' = IF isFault THEN faults + 1 ELSE faults
     /\ lastActor' = "env"
     /\ UNCHANGED <<loose, looseSynced, sbx, pk, pkSynced, idx, snapR, pinR, wpc, wi, wexists, rpc, rhits, rmiss, rres,
-                   ppc, plist, ptodo, pdone, pclean, acked, rstarted, power>>
+                   spc, stries, sres, ppc, plist, ptodo, pdone, pclean, acked, rstarted, power>>
 
 Crash == AllowCrash /\ \E a \in {"W", "P"} : Stop(a, FALSE)
 Fault == AllowFault /\ faults = 0 /\ \E a \in {"W", "P"} : Stop(a, TRUE)
@@ -283,15 +321,15 @@ Fault == AllowFault /\ faults = 0 /\ \E a \in {"W", "P"} : Stop(a, TRUE)
 PowerLoss ==
     /\ AllowPower /\ ~power
     /\ power' = TRUE
-    /\ dead' = {"W", "R", "P"}
+    /\ dead' = {"W", "R", "P", "S"}
     /\ pk' = SubSeq(pk, 1, pkSynced)
     /\ loose' = [k \in Keys |-> IF loose[k] = "good" /\ ~looseSynced[k] THEN "torn" ELSE loose[k]]
     /\ pbuf' = <<>> /\ pend' = {}
     /\ lastActor' = "env"
     /\ UNCHANGED <<looseSynced, sbx, pkSynced, idx, snapP, pinP, snapR, pinR, lockf, wpc, wi, wexists, rpc, rhits, rmiss, rres,
-                   ppc, plist, ptodo, pdone, pclean, acked, rstarted, faults>>
+                   spc, stries, sres, ppc, plist, ptodo, pdone, pclean, acked, rstarted, faults>>
 
-Next == Writer \/ Reader \/ Packer \/ Crash \/ Fault \/ PowerLoss
+Next == Writer \/ Reader \/ Seeker \/ Packer \/ Crash \/ Fault \/ PowerLoss
 Spec == Init /\ [][Next]_vars
 
 -----------------------------------------------------------------------------
@@ -319,6 +357,10 @@ DurableVisible == power \/ (
 AfterPowerLoss == power => /\ \A k \in acked : loose[k] = "good" \/ \E r \in idx : r.k = k /\ r.pos <= Len(pk) /\ pk[r.pos] = r.k
                            /\ \A k \in Keys : loose[k] # "torn"
                            /\ \A r \in idx : r.pos <= Len(pk)
+
+(* the seeking read of a packed object succeeds: with a single packer the re-loosened copy is removed at most once *)
+SeekReadCorrect == /\ sres # "RuntimeError"
+                   /\ (spc = "s_done" /\ SeekKey # "none" /\ "S" \notin dead) => sres = "OK"
 
 (* the writer returns the key of the content it was given, and the object is then reachable *)
 WriteAcked == \A k \in acked : loose[k] = "good" \/ (\E r \in idx : r.k = k) \/ power
